@@ -255,7 +255,7 @@ def run(case: dict) -> Outcome:
                     cont_b = C.read_container(blob_b)
                     _compare_containers(out, cont_a, cont_b, accessed, f'after save #{saves} (step {si})', variant)
                     obs_b = G.observe_all(BSP(cur_path))
-                    d = diff(ref, obs_b)
+                    d = diff(ref, obs_b, tol_default=0.0)
                     if d is not None:
                         view = d[0].strip('/').split('/')[0].split('[')[0]
                         out.violate('view-changed:' + view, f'{variant}|{"+".join(sorted(accessed)) or "none"}|{generic_path(d[0])}',
